@@ -176,11 +176,17 @@ func (w *Flushable) Drop() {
 
 // NotFlushedPairs returns num of not flushed keys, including deleted keys.
 func (w *Flushable) NotFlushedPairs() int {
+	w.lock.RLock()
+	defer w.lock.RUnlock()
+
 	return w.modified.Size()
 }
 
 // NotFlushedSizeEst returns estimation of not flushed data, including deleted keys.
 func (w *Flushable) NotFlushedSizeEst() int {
+	w.lock.RLock()
+	defer w.lock.RUnlock()
+
 	return *w.sizeEstimation
 }
 
@@ -228,12 +234,21 @@ func (w *Flushable) flush() error {
 
 // Stat returns a particular internal stat of the database.
 func (w *Flushable) Stat(property string) (string, error) {
-	return w.underlying.Stat(property)
+	return w.getUnderlying().Stat(property)
 }
 
 // Compact flattens the underlying data store for the given key range.
 func (w *Flushable) Compact(start []byte, limit []byte) error {
-	return w.underlying.Compact(start, limit)
+	return w.getUnderlying().Compact(start, limit)
+}
+
+// getUnderlying reads the underlying store under the lock (LazyFlushable replaces it).
+// The lock isn't held during the call into the underlying store.
+func (w *Flushable) getUnderlying() kvdb.Store {
+	w.lock.RLock()
+	defer w.lock.RUnlock()
+
+	return w.underlying
 }
 
 /*
